@@ -1043,3 +1043,27 @@ func successReturns(fn *ssa.Function, pkgKey string) []succRet {
 	visit(fn, map[*ssa.Parameter]ssa.Value{}, 0)
 	return out
 }
+
+// ifPos: a position for a branch (switch arms lower to Ifs without a position of their own: the condition's, or the
+// first positioned instruction of the block).
+func ifPos(ifi *ssa.If) token.Pos {
+	if ifi.Pos().IsValid() {
+		return ifi.Pos()
+	}
+	if ifi.Cond != nil && ifi.Cond.Pos().IsValid() {
+		return ifi.Cond.Pos()
+	}
+	for _, in := range ifi.Block().Instrs {
+		if in.Pos().IsValid() {
+			return in.Pos()
+		}
+	}
+	if len(ifi.Block().Succs) > 0 {
+		for _, in := range ifi.Block().Succs[0].Instrs {
+			if in.Pos().IsValid() {
+				return in.Pos()
+			}
+		}
+	}
+	return token.NoPos
+}
